@@ -277,9 +277,12 @@ pub fn run(run: &mut Run, extra: &[String]) {
             C2Code::new().h()
         }
     };
-    let reference: Vec<ldpc_toolbox::sparse::SparseMatrix> = (0..10).map(|i| std::thread::spawn(move || build(i)).join().expect("h()")).collect();
+    let reference: Vec<Option<ldpc_toolbox::sparse::SparseMatrix>> = (0..10).map(|i| std::thread::spawn(move || guard(move || build(i)).ok()).join().ok().flatten()).collect();
     let names: Vec<&'static str> = sp.iter().map(|s| s.name).chain(["C2"]).collect();
-    run.sub("call-histories-ordered-pairs", 100, |l, idx, _rng| {
+    // (a construction that panics on a fresh thread is already reported by the per-code sub-check above)
+    let reference: Vec<ldpc_toolbox::sparse::SparseMatrix> = if reference.iter().all(|r| r.is_some()) { reference.into_iter().map(|r| r.unwrap()).collect() } else { Vec::new() };
+    let npairs = if reference.is_empty() { 0 } else { 100 };
+    run.sub("call-histories-ordered-pairs", npairs, |l, idx, _rng| {
         let (a, b) = (idx as usize / 10, idx as usize % 10);
         l.eval();
         let res = std::thread::spawn(move || guard(move || (build(a), build(b)))).join();
